@@ -261,13 +261,26 @@ def rule_g(ctx, R):
         cur = v.root(tt["args"][0]) if tt["args"] else None
         if cur is None or nm == "repeat_with":
             break
-    names_wo_deref = [n for n in names if n not in ("deref", "as_slice", "as_ref", "borrow")]
+    names_wo_deref = [n for n in names if n not in ("deref", "as_slice", "as_ref", "borrow", "into_iter")]
     shape_ok = names_wo_deref in (["collect_vec", "take", "repeat_with"], ["collect", "take", "repeat_with"])
-    ctx.ob("C17-g", "x-space point is collect(take(repeat_with(..), n)) with no other adapter (chain %s)" % names_wo_deref, shape_ok, e2.path,
+    # the other count-exact producer: (0..n).map(|_| draw).collect()
+    range_form = None
+    if names_wo_deref in (["collect", "map"], ["collect_vec", "map"]) and cur is not None and cur.kind == "local":
+        rvr = v.rvalue_of(cur)
+        if rvr and rvr["k"] == "aggregate" and rvr.get("agg") == "adt" and str(rvr.get("adt", "")).endswith("ops::range::Range") and len(rvr["ops"]) == 2:
+            lo = rvr["ops"][0]
+            if lo["k"] == "const" and lo.get("int") == "0":
+                range_form = rvr
+                shape_ok = True
+    ctx.ob("C17-g", "x-space point is collect(take(repeat_with(..), n)) or collect(map(0..n, ..)) with no other adapter (chain %s)" % names_wo_deref, shape_ok, e2.path,
            "rng-entry-draw-chain", where=pat.where(t), detail="adapter chain from the slice argument back to its source: %s" % names)
     if shape_ok:
-        take = [c for c in chain if c["callee"].get("name") == "take"][0]
-        nr = v.root(take["args"][1])
+        if range_form is not None:
+            take = [c for c in chain if c["callee"].get("name") == "map"][0]
+            nr = v.root(range_form["ops"][1])
+        else:
+            take = [c for c in chain if c["callee"].get("name") == "take"][0]
+            nr = v.root(take["args"][1])
         nt = v.call_term(nr)
         if nt is None and nr.kind == "local":
             dd = v.single_def(nr.base[1])
@@ -276,14 +289,18 @@ def rule_g(ctx, R):
         n_ok = nt is not None and R.body_of_callee(nt.get("callee")) is gd and v.root(nt["args"][0]).kind == "arg"
         ctx.ob("C17-g", "take(n): n is the unmodified return value of get_dimension(self)", n_ok, e2.path, "rng-entry-count", where=pat.where(take),
                detail="n has root %r" % (nr,))
-        rw = [c for c in chain if c["callee"].get("name") == "repeat_with"][0]
-        cr = v.root(rw["args"][0])
+        if range_form is not None:
+            rw = take
+            cr = v.root(rw["args"][1])
+        else:
+            rw = [c for c in chain if c["callee"].get("name") == "repeat_with"][0]
+            cr = v.root(rw["args"][0])
         rv = v.rvalue_of(cr) if cr.kind == "local" else None
         clos = None
         if rv and rv["k"] == "aggregate" and rv["agg"] == "closure":
             clos = f.mir.get(rv["closure"])
         if clos is None:
-            ctx.lost("C17-g", "generator closure of repeat_with", e2.path)
+            ctx.lost("C17-g", "generator closure of the draw chain", e2.path)
         else:
             ctx.fn(clos.path)
             gens = [(b_, t_) for b_, t_ in clos.calls() if callee_is(t_, trait="Rng", name="gen")]
